@@ -312,12 +312,12 @@ def run_check(prop, tier):
             name = s["name"]
             count = s["thorough"] if thorough else s["quick"]
             if boost:
-                count = min(s["thorough"], count * (3 if name not in ("codec", "weight", "exec", "feemult", "confirm") else 4))
+                count = min(s["thorough"], count * (3 if name not in ("codec", "weight", "exec", "feemult", "confirm", "stdcode") else 4))
             runs.append((name, count, None, ""))
             for i, threads in enumerate(s.get("rayon", []) if thorough else s.get("rayon", [])[:2]):
                 runs.append((name, max(1, count // 3), {"RAYON_NUM_THREADS": str(threads)}, "-t%s" % threads))
         # the state streams are sharded over the cores (each shard has its own derived seed and directory)
-        VMS = ("codec", "weight", "exec", "feemult", "confirm")
+        VMS = ("codec", "weight", "exec", "feemult", "confirm", "stdcode")
         sharded = []
         for (name, count, env, tag) in runs:
             if thorough:
